@@ -380,7 +380,7 @@ def mask_rule(ctx):
 
 def history_rule(ctx):
     repo = ctx.repo
-    r = ctx.rule("R17.5", "irreversibility: the history field is the point-wise maximum of old and new driving energy and has only the committed writers; damage-based solvers bound the new damage by the old one", min_instances=3)
+    r = ctx.rule("R17.5", "irreversibility: the history field has only the committed writers; damage-based solvers bound the new damage by the damage at the start of the load step (the point-wise maximum rule of the history field: R17.19)", min_instances=2)
     ps = repo.cls(PFS)
     writers = {}
     for name, f in ps.methods.items():
@@ -399,43 +399,9 @@ def history_rule(ctx):
     else:
         f0 = ps.methods["__init__"]
         r.fail(PFS, f"history-writers:{sorted(extra)}", f0.file, f0.lineno, "PhaseField", f"the history field is written by {sorted(writers)}; only construction, Save_Iter and Set_Iter may commit it (a write inside the staggered solve would advance the history before convergence)")
-    # maximum rule: inc = A - B ; (i, j) = where(inc < 0) ; A[i, j] = B[i, j]
-    found = None
-    for name, f in ps.methods.items():
-        if f.cls is not ps:
-            continue
-        incs = {}
-        for n in walk_no_nested(f.node):
-            if isinstance(n, ast.Assign) and isinstance(n.targets[0], ast.Name) and isinstance(n.value, ast.BinOp) and isinstance(n.value.op, ast.Sub) and isinstance(n.value.left, ast.Name) and isinstance(n.value.right, ast.Name):
-                incs[n.targets[0].id] = (n.value.left.id, n.value.right.id)
-        for n in walk_no_nested(f.node):
-            if isinstance(n, ast.Assign) and isinstance(n.targets[0], ast.Tuple) and isinstance(n.value, ast.Call) and (dotted(n.value.func) or "") == "np.where" and n.value.args and isinstance(n.value.args[0], ast.Compare):
-                c = n.value.args[0]
-                if isinstance(c.left, ast.Name) and c.left.id in incs and isinstance(c.ops[0], ast.Lt) and isinstance(c.comparators[0], ast.Constant) and c.comparators[0].value == 0:
-                    A, B = incs[c.left.id]
-                    idx = [e.id for e in n.targets[0].elts if isinstance(e, ast.Name)]
-                    for m in walk_no_nested(f.node):
-                        if isinstance(m, ast.Assign) and isinstance(m.targets[0], ast.Subscript) and isinstance(m.value, ast.Subscript):
-                            t, v = m.targets[0], m.value
-                            if isinstance(t.value, ast.Name) and t.value.id == A and isinstance(v.value, ast.Name) and v.value.id == B and [x.id for x in ast.walk(t.slice) if isinstance(x, ast.Name)] == idx == [x.id for x in ast.walk(v.slice) if isinstance(x, ast.Name)] and len(idx) == 2:
-                                # B must come from the stored history
-                                src = [a for a in walk_no_nested(f.node) if isinstance(a, ast.Assign) and isinstance(a.targets[0], ast.Name) and a.targets[0].id == B and "old_psiP_e_pg" in norm_text(a.value)]
-                                if src:
-                                    found = (f, A, B)
-    r.instance(fn=found[0].qualname if found else PFS)
-    if found:
-        r.ok(f"{found[0].name}: {found[1]}[i, j] = {found[2]}[i, j] where ({found[1]} - {found[2]}) < 0, {found[2]} read from the stored history: point-wise maximum")
-    else:
-        f0 = ps.methods["__init__"]
-        r.fail(PFS, "history-max", f0.file, f0.lineno, "PhaseField", "no function keeps the stored history value where the new driving energy is smaller (inc = new - old; where(inc < 0); new[idx] = old[idx])")
-    # the history is stored at Save_Iter from the value computed by the same function
-    fs = ps.methods["Save_Iter"]
-    r.instance(fn=fs.qualname)
-    if any(isinstance(n, ast.Assign) and "old_psiP_e_pg" in norm_text(n.targets[0]) and "psiP_e_pg" in norm_text(n.value) for n in ast.walk(fs.node)):
-        r.ok("Save_Iter commits the current driving energy as the new history")
-    else:
-        r.fail(fs.qualname, "commit", fs.file, fs.lineno, "PhaseField.Save_Iter", "Save_Iter does not commit the driving energy to the history field")
-
+    # (the point-wise maximum and the commit at Save_Iter were matched as statement shapes here - inc = A - B; where(inc < 0);
+    # A[idx] = B[idx] - which raised a false alarm on `np.maximum(A, B)`; they are now decided by interpreting the history
+    # protocol: R17.19.)
     # damage-based irreversibility: the bound is applied to the damage the simulation keeps (the one Save_Iter records)
     from ..flow import Locals, must_pass
 
